@@ -144,4 +144,7 @@ def run(ck):
     progr = ck.program('terraswap_router', 'white_whale_std')
     simulation(ck, progr); reverse_simulation(ck, progr); hop_execution(ck, progr)
     ck.bounds['router'] = '1..3 hops over an alternating native/cw20 asset chain; pair answers arbitrary'
+    ck.outside += ['router routes that visit the same pool twice (the simulation asks every pool in its pre-transaction state; observed on the unchanged tree, findings/wave11-preexisting/C14)',
+                   'a router that already holds a balance of a route asset (an executed hop swaps the whole balance: the receiver gets more than quoted)',
+                   'coins of the ask denom attached to a native pair swap (they enlarge the ask reserve at execution time)']
     ck.assumptions.append('router multi-hop: the router holds no balance of a hop asset before the operation (an executed hop swaps the router\'s whole balance, a stray balance included)')
